@@ -23,7 +23,7 @@ Lemma ci_one_range tol (m : cmode R) : mode_ok (ncols (mA m)) m -> 0 <= ci_one t
 Proof.
   intros Hm. destruct (Nat.eq_dec (ncols (mA m)) 0) as [E|E].
   - rewrite corr_index_one_rank0; [lra | exact E |]. destruct Hm as (_ & Hb & _). now rewrite Hb.
-  - apply (corr_index_one_range tol (ncols (mA m))); [exact Hm | lia].
+  - unfold ci_one. apply (corr_index_one_range tol (ncols (mA m)) m); [exact Hm | lia].
 Qed.
 
 Lemma ci_one_zero tol (m : cmode R) : mode_ok (ncols (mA m)) m -> cols_covered m (ncols (mA m)) -> ci_one tol m = 0.
@@ -146,7 +146,8 @@ Lemma modes_ok_of_inv (ms : list (cmode R)) :
   forall m, In m ms -> mode_ok (ncols (mA m)) m.
 Proof.
   intros Hs Ht m Hm. unfold tape_valid in Ht. rewrite Forall_forall in Ht. destruct (Ht m Hm) as (Va & Vb).
-  destruct (Hs m Hm) as (E1 & E2). repeat split; auto.
+  destruct (Hs m Hm) as (E1 & E2). unfold mode_ok.
+  split; [reflexivity|]. split; [now symmetry|]. split; [exact E1|]. split; assumption.
 Qed.
 
 Theorem correlation_index_range meth tol f1s f2s n1s n2s v :
